@@ -118,3 +118,20 @@ pub fn any_low(hi: f64, k: i32) -> f64 {
         any_in_binade(be(hi) - k)
     }
 }
+
+/// A "ground" operand that the symbolic executor does not constant-fold: CBMC's expression
+/// simplifier evaluates concrete float code with arbitrary-precision arithmetic and can take
+/// minutes on division-heavy paths, whereas the SAT solver propagates a pinned input by unit
+/// propagation. The value is fully determined; the query is still a ground query.
+pub fn pinned(v: f64) -> f64 {
+    let x = any_f64();
+    assume(x.to_bits() == v.to_bits());
+    x
+}
+
+/// ground double-double operand (both words pinned by assumption, see `pinned`)
+pub fn gtf(hi: f64, lo: f64) -> TwoFloat {
+    let h = pinned(hi);
+    let l = pinned(lo);
+    tf(h, l)
+}
